@@ -383,7 +383,12 @@ class SplitMix:
 def load_known():
     if not os.path.exists(KNOWN):
         return []
-    return json.load(open(KNOWN))["findings"]
+    ks = json.load(open(KNOWN))["findings"]
+    if os.environ.get("VERIF_PRE_FIX_BASE"):
+        # used only by bin/seedcheck when a seeded change is tested on the tree as it was BEFORE the fix: commits:
+        # findings repaired since then are exhibited there by construction and must not count as the seed being caught
+        ks = [dict(k, status="open") if k.get("status") == "fixed" else k for k in ks]
+    return ks
 
 
 def write_replay(prop, payload):
